@@ -4617,6 +4617,28 @@ func extraC17SizeCheckUnconditional(c *Ctx, r *Report) {
 			if exceeds {
 				return // the rejecting return
 			}
+			// a return that refuses for another reason (the header-size test merged into the same function hands back a
+			// reason string / an error) is not an accepting return
+			if len(ret.Results) > 0 {
+				last := ret.Results[len(ret.Results)-1]
+				switch t := last.Type().Underlying().(type) {
+				case *types.Interface:
+					if last.Type().String() == "error" && !isNilConst(last) {
+						return
+					}
+				case *types.Basic:
+					if t.Kind() == types.String {
+						if k, isK := last.(*ssa.Const); !isK || (k.Value != nil && k.Value.ExactString() != `""`) {
+							return
+						}
+					}
+					if t.Kind() == types.Bool {
+						if k, isK := last.(*ssa.Const); isK && k.Value != nil && k.Value.String() == "false" {
+							return
+						}
+					}
+				}
+			}
 			idx++
 			n++
 			key := fmt.Sprintf("%s:accept#%d", fname(f), idx)
@@ -5596,13 +5618,13 @@ func extraC02SingleDispatch(c *Ctx, r *Report) {
 		}
 		return -1
 	})
-	falseReturnsDispatchFree := func(f *ssa.Function) bool {
+	falseReturnsDispatchFree := func(f *ssa.Function, idx int) bool {
 		ok := true
 		for ret, s := range pc.perReturn(f, 0) {
-			if len(ret.Results) == 0 {
+			if idx >= len(ret.Results) {
 				continue
 			}
-			k, isK := ret.Results[0].(*ssa.Const)
+			k, isK := ret.Results[idx].(*ssa.Const)
 			if !isK || k.Value == nil || k.Value.String() != "false" {
 				continue
 			}
@@ -5651,8 +5673,15 @@ func extraC02SingleDispatch(c *Ctx, r *Report) {
 				exempt := false
 				if v1, ok := d1.(*ssa.Call); ok && d1 != d2 {
 					for _, cf := range normFacts(condFacts(d2.Block())) {
-						if cf.Cond == ssa.Value(v1) && !cf.True {
-							if sc := v1.Call.StaticCallee(); sc != nil && falseReturnsDispatchFree(sc) {
+						cond, idx := cf.Cond, 0
+						// `handled, reason := a.tryPassthrough(…)`: the verdict is the bool of the result tuple
+						if ex, isEx := cond.(*ssa.Extract); isEx && ex.Tuple == ssa.Value(v1) {
+							if b, isB := ex.Type().Underlying().(*types.Basic); isB && b.Kind() == types.Bool {
+								cond, idx = ex.Tuple, ex.Index
+							}
+						}
+						if cond == ssa.Value(v1) && !cf.True {
+							if sc := v1.Call.StaticCallee(); sc != nil && falseReturnsDispatchFree(sc, idx) {
 								exempt = true
 							}
 						}
